@@ -8,7 +8,9 @@ from ..core import Disc, Subcheck, exc_detail, exc_key
 
 PROPERTY_ID = 'C04'
 LEVEL = 'exploration'
-RULE = ('stream = 1..6 generated messages (C03 generator, reference-encoded in mixed byte orders; serials, lengths and '
+RULE = ('big_header: a 70 000 (300 000)-character object path between two small messages, in one read, in 64 KiB reads and cut '
+        'around the big message. '
+        'stream = 1..6 generated messages (C03 generator, reference-encoded in mixed byte orders; serials, lengths and '
         'strings forced to contain CR LF) behind one of three receivers: pre-authenticated protocol, server role after '
         'a real AUTH ANONYMOUS/BEGIN handshake, client role after OK <guid>; the handshake bytes are part of the stream '
         'that is partitioned. partitions: random cut sets, one byte per read, everything in one read (random); every '
@@ -281,7 +283,28 @@ def enum_coalesce(tier):
     yield {'setup': 'pre', 'coalesce': 2730, 'orders': 'le', 'mode': 'one'}   # one 64 KiB socket read
 
 
+def enum_big_header(tier):
+    """A message whose HEADER is big (an object path of 70 000 / 300 000 characters: paths have no length limit of their
+    own), between two small ones: in one read, in 64 KiB socket reads, and cut inside its fixed header."""
+    def small(serial, member):
+        return {'type': 4, 'fields': {'path': '/s', 'interface': 'a.b', 'member': member}, 'sig': 's', 'trees': [member],
+                'pres': [], 'no_reply': False, 'no_auto': False, 'serial': serial}
+    for plen in ((70000,) if tier == 'quick' else (70000, 300000)):
+        big = {'type': 1, 'fields': {'path': '/' + 'p' * (plen - 1), 'member': 'Big', 'destination': 'c.d'}, 'sig': 'u',
+               'trees': [7], 'pres': [], 'no_reply': False, 'no_auto': False, 'serial': 2}
+        for setup in ('pre', 'server', 'client'):
+            for enc in ([True, True, True], [False, True, False]):
+                case = {'setup': setup, 'msgs': [small(1, 'First'), big, small(3, 'Third')], 'enc': enc, 'mode': 'one', 'cuts': []}
+                yield case
+                total = len(_full(case))
+                yield dict(case, mode='cuts', cuts=list(range(65536, total, 65536)))
+                yield dict(case, mode='cuts', cuts=[_prefix_len(setup) + 60, _prefix_len(setup) + 70, total - 40])
+
+
 SUBCHECKS = [
+    Subcheck('big_header', run_case, classify, enumerate=enum_big_header, shards={'quick': 4, 'thorough': 4},
+             exhaustive_note='a 70 000 (300 000)-character object path between two small messages x 3 receivers x 2 byte-order '
+                             'mixes x {one read, 64 KiB reads, cuts around the big message}'),
     Subcheck('random', run_case, classify, strategy=lambda tier: random_case(tier),
              n={'quick': 250, 'thorough': 2500}),
     Subcheck('cuts1', run_case, classify, strategy=lambda tier: short_case(tier, 'all1', 400),
